@@ -461,6 +461,29 @@ theorem read_write_roundtrip_operands (d : Desc) (enum : List Code) (m : ModelT)
     rw [resolve_nat base _ i hil] at hb2
     exact ⟨i, by rw [hb1, ← Except.ok.inj hb2], hgi⟩
 
+/-- **reader_clones_never_written.** For every convolution-like operator type the reader can produce (`builtin_operator_map`,
+table fact `conv_rows_ok`): whatever clones `parse_operator` puts in place of constant weights and bias (`cloneStep`), the writer's
+`src_tensor` restoration (`restoredInputs`, run on the reader's tensors and operand list) yields the operator's file operands
+again — followed by the `None` the reader appended for a missing bias, and literally the same list when the weights are not
+constant. So the reshaped clones never reach the file, and the only trace of the loop is a trailing `−1`. -/
+theorem reader_clones_never_written (row : Nat × String × Bool × WriterTbl.Tri) (hrow : row ∈ WriterTbl.readerOps) (info : OpInfo)
+    (hl : lookupOp row.2.1 = some info) (hc : info.convLike = true) (ts : List TensorD) (ins : List (Option Nat))
+    (r : List TensorD × List (Option Nat))
+    (hins : ∀ (q g : Nat), ins[q]? = some (some g) → ∃ t, ts[g]? = some t ∧ t.src = none)
+    (h : Reader.cloneStep info ts ins = .ok r) :
+    ∃ w tw, ins[1]? = some (some w) ∧ ts[w]? = some tw ∧
+      restoredInputs r.1 info r.2 = .ok (if tw.values.isSome then Reader.biasSlot info ins else ins) := by
+  obtain ⟨i0, b0, hop⟩ := Reader.convOk_of_row row info (List.all_eq_true.mp Reader.conv_rows_ok row hrow) hl hc
+  exact Reader.clones_restored info i0 b0 hop ts ins r hins h
+
+/-- not vacuous: CONV_2D `[x, w]` with constant `w` (tensor 1) and no bias: the reader makes `[x, w_reshape, None]`, the writer
+`[x, w, None]` -/
+example :
+    let x : TensorD := Demo.t "x" [1, 4, 4, 2] "int8" none none 0 none
+    let w : TensorD := Demo.t "w" [2, 1, 1, 2] "int8" none (some (.raw [1, 2, 3, 4])) 0 none
+    ((lookupOp "Conv2DBias").bind fun info => ((Reader.cloneStep info [x, w] [some 0, some 1]).toOption.map fun r =>
+      (r.2, (restoredInputs r.1 info r.2).toOption))) = some ([some 0, some 2, none], some [some 0, some 1, none]) := by decide +kernel
+
 /-- table facts (regenerated `Op`, `builtin_operator_map`, `builtin_operator_inv_map`): names and sort keys identify the operator
 type; whatever the writer can serialise the reader maps back to the same type, serialiser and index triple; graph-side and
 TFLite-side operand orders coincide for every operator type -/
